@@ -81,7 +81,7 @@ fn gen(seed: u64, idx: u64, _tier: Tier) -> Plan {
     plan.params.insert("slice".into(), slice as i64);
     let sockets = 8 + rng.below(40) as u32;
     let mut ctr = seed ^ 0xc12;
-    let mut t = 1000u64;
+    let mut t = 6000u64;
     for j in 0..PER_RUN {
         let k = slice * PER_RUN + j;
         if k >= VARIANTS {
